@@ -10,13 +10,42 @@ def _clock_typed(src):
 
 SPEC = dict(
     id="C02",
-    level_text="TODO",
+    level_text=(
+        "PARTIAL, with two findings. The full statement C02_full (for ALL byte strings b: observe(Decode typed=on b) = "
+        "observe(Decode typed=off b)) is FALSE of the current tree: C02_full_witness_skip / C02_full_witness_dup are "
+        "machine-checked counterexamples in the model and the harness reproduces both on the real code (keys below). "
+        "Proved in Lean 4 for all inputs and any float semantics satisfying FloatLaws (float32->float64 widening commutes "
+        "with int64 conversion and the range tests): C02_fallback_sound / C02_differs_only_on_hit (a typed miss IS the generic "
+        "path); the per-class content of C02_hit_agrees — C02_valueColumn_agrees (int, float, string, bool and all-nil "
+        "columns: any widths, nils anywhere, numeric cross-coercion, uint64>MaxInt64 and out-of-range floats), "
+        "C02_timeColumn_agrees (unit from element 0 in both paths, scaling, wrap), C02_measurement_agrees, the five "
+        "C02_*Elem_agrees; C02_roundtrip_leaf (byte decoder vs encoder at every leaf width); and by `decide` over tables "
+        "regenerated from the current sources: C02_units_same (thresholds 1e10/1e13/1e16 and multipliers identical in "
+        "normalizeTimestampColumns and decodeTimeColumnTyped), C02_accepted_kinds, C02_guards, C02_code_classes, C02_prealloc. "
+        "NOT proved, only validated by the differential harness (0 disagreements): the map-level glue from the per-column "
+        "theorems to C02_hit_agrees under the carve-out `Carve` (top-level/columns key handling, last-wins de-duplication, "
+        "length check, generated time column), the container arms of the round trip, and that the tree-level definition of "
+        "typedPath equals the streaming decoder. The model (tree decoder, goBox, typedPath, genericPath incl. batch/array/"
+        "row dispatch) is diffed against the real tryDecodeColumnarTyped, Decode(off) and convertColumnsToTyped on every body."),
+    level_note="row-format record contents are compared ON vs OFF on the real code by the monitor but not modelled (measurement + accept/reject only)",
     technique="Lean 4 proof over an executable model of both decode paths (msgpack tree decoder, library boxing rules goBox, typed fast path, generic path + convertColumnsToTyped) for an abstract float semantics; regenerated constants/tables; differential correspondence of both paths on structure-aware MessagePack bodies",
     factgen=True,
     clockify=["internal/ingest/msgpack.go"],
     rewrite=[("internal/ingest/msgpack_typed.go", _clock_typed)],
     hooks={"internal/ingest": "go/hooks/ingest_c02"},
     harnesses=[dict(name="c02", timeout=dict(quick=900, thorough=3400))],
-    trusted_base=[],
-    assumptions=[],
+    trusted_base=[
+        "goBox = the boxing rules of github.com/Basekick-Labs/msgpack/v6 Unmarshal into interface{} (dynamic type per wire code, DecodeString accepting str/bin/nil keys, typed maps for a non-string first key incl. reflect panics, ext -1 = time.Time, unknown ext ids rejected, trailing bytes ignored) — read from the fork, stated separately, validated on every harness body, not proved",
+        "Decoder.Skip succeeds exactly on well-formed values and DecodeXxx agree with the tree decoder under the PeekCode class tests (lets typedPath be a function of the decoded value tree)",
+        "IEEE-754 / Go-on-amd64 conversions are the executable FloatSem instance of the driver only; theorems assume FloatLaws (three equations about float32 widening), which the harness exercises with float32 elements in int and time columns",
+        "SanitizeUTF8 is a parameter of the theorems (both paths call the same Go function); the driver uses a transcription of utf8.ValidString + sanitizeUTF8SlowPath",
+        "observation = Decode result + convertColumnsToTyped (the only step between a generic *ColumnarRecord and the shared buffer append in ArrowBuffer.Write); Write/FlushAll read-back is not repeated here (C01/C03 cover the buffer and flush)",
+        "the generated timestamp is the virtual clock (time.Now in msgpack.go / msgpack_typed.go rewritten by the overlay), equal on both sides",
+        "a panic inside msgpack.Unmarshal is reported as a rejection (E:unmarshal) in the model diff: the tree-level model cannot order such a panic before a later truncation",
+    ],
+    assumptions=[
+        "no decimal columns configured (the handler disables the fast path otherwise: NewMsgPackHandler, api/msgpack.go)",
+        "random bodies keep bin32 length claims below 64 KiB (the fork allocates and zeroes the CLAIMED bin size up front, up to 4 GiB per decode); larger claims only in the edge grid",
+        "two megabyte-sized bodies at maxTypedPreallocElems / +1 are checked ON vs OFF on the real code but not sent to the model",
+    ],
 )
